@@ -325,9 +325,9 @@ Cases == IdxCases \cup MidxCases \cup FixCases \cup CountCases \cup IlistCases \
 
 ---------------------------------------------------------------------------
 (* field kinds a source program can drive beyond one byte; the program-level binding needs a witness unit for each *)
-SourceFields == { "idx:Loc", "idx:Par", "idx:Glo", "idx:Const", "idx:Label", "midx:Lex", "midx:RElt", "midx:EElt",
+SourceFields == { "idx:Loc", "idx:Par", "idx:Glo", "idx:Const", "idx:Label", "idx:RNew", "midx:Lex", "midx:RElt", "midx:EElt",
                   "count:DDecl", "count:DFmt", "count:DDef", "count:Seq", "count:Arr", "ilist:DEnv",
-                  "decl:str", "decl:fmt", "prog:labels", "prog:fmt", "bint:places", "fix:PushEnv" }
+                  "decl:str", "decl:fmt", "prog:labels", "prog:fmt", "bint:places", "fix:MFmt" }
 FieldRec(k, v) == [field |-> k, bound |-> v, width |-> WidthName(v, FALSE)]
 
 ---------------------------------------------------------------------------
